@@ -62,6 +62,36 @@ def run(ck):
     with ck.section('R15.8'):
         from rules.shared import const_identity_run
         const_identity_run(ck, R8)
+    R9 = ck.rule('R15.9', "references by name made after an explicit finalize() are still resolved at the start: "
+                 "in run_forever every path to the first start() passes a resolve() that does not depend on the "
+                 "circuit being not yet finalized (finalize() resolves only on its first call)", 'M0', 1)
+    with ck.section('R15.9'):
+        rf9 = prog.func('simulator:Circuit.run_forever')
+        g9 = ck.cfg(rf9.fid, 'M0')
+        from sa.rulekit import check_must_pass as _cmp9
+        starts9 = [n for n in nodes_calling(g9, 'start') if any(recv(c) != 'self' for c in node_calls(n, 'start'))]
+        ck.need(R9, starts9, "run_forever: the start() loop was not recognised")
+        res9 = [n for n in nodes_calling(g9, 'resolve')
+                if not any('_finalized' in t for t, _p in g9.guard_texts(n))]
+        # a callee that resolves unconditionally counts as well (an extracted helper); finalize() does not:
+        # its resolve() is guarded by `not self._finalized`
+        circ9 = prog.cls('simulator:Circuit')
+        for n in g9.nodes:
+            if n.kind != 'stmt' or n.ast is None:
+                continue
+            for c in node_calls(n):
+                if recv(c) == 'self' and call_name(c) in circ9.methods and call_name(c) != 'run_forever':
+                    cal = circ9.methods[call_name(c)]
+                    gc9 = ck.cfg(cal.fid, 'M0')
+                    inner = [m_ for m_ in nodes_calling(gc9, 'resolve')
+                             if not any('_finalized' in t for t, _p in gc9.guard_texts(m_))]
+                    if inner and all(gc9.dominates(inner[0], x) for x in return_nodes(gc9)) and \
+                            not any('_finalized' in t for t, _p in g9.guard_texts(n)):
+                        res9.append(n)
+        _cmp9(ck, R9, f"{rf9.fid} :: resolve before the first start()", rf9, g9, g9.entry, res9, starts9,
+              "an unconditional `_resolver.resolve()` precedes the start of the blocks (names registered after "
+              "an explicit finalize() would otherwise stay strings: Event.dest raises, unknown names are not "
+              "reported)")
     with ck.section('R15.1'):
         # ------------------------------------------------------------------ R15.1
         n = 0
